@@ -1,27 +1,76 @@
 """C11 -- wire formats match an independent reference codec.
 
 The extracted Coq model is the reference (no code shared with /repo).  The check is the union of
-the C01 (values) and C02 (byte strings) projections restricted to RANDOM schemas (TL1; the TL2
-projections are run by C03/C13 whose model carries the TL2 layout), re-checking Props/C11.v."""
+the C01 (values) and C02 (byte strings) projections restricted to RANDOM schemas (TL1), the TL2 projection
+lib/tl2_lib.c11_tl2_leg (Tl2 reference model; C03/C13 carry its theorems), and the leg corr:C11:resolution
+(kernel dump of the schema IR against the independent derivation lib/indep_ir.py), re-checking Props/C11.v."""
 import copy
 
 from vlib import *
+from gencommon import build_tools
 import checks.C01 as c01
 import checks.C02 as c02
 
 
 def run(ctx):
+    import indep_ir
+    import randschema
     n = 6 if ctx.quick() else 60
-    c01.run(ctx, props="Props/C11", random_only=True, nrand=n)
+    with Lock():
+        check_theorems("Props/C11")     # builds Tl1Resolve.vo (imported by Props/C11.v) before the checker is extracted
+    leg = indep_ir.ResolutionLeg(ctx)   # corr:C11:resolution
+    leg.build()
+    # TL2 projection (lib/tl2_lib.c11_tl2_leg, the Tl2 reference model against generated Go): runs beside the TL1 legs on a
+    # copy of the context with its own generator, seeded from ctx.rng BEFORE the TL1 legs draw from it (runs stay reproducible)
+    import random
+    import threading
+    import traceback
+    import tl2_lib
+    ctx2 = copy.copy(ctx)
+    ctx2.rng = random.Random(ctx.rng.getrandbits(64))
+    ctx2.scratch = ctx.scratch / "tl2leg"      # own directory: both sides name their random schema units rs<i>
+    ctx2.scratch.mkdir(exist_ok=True)
+    tl2_out = {}
+
+    def tl2_leg():
+        try:
+            tl2_out["res"] = tl2_lib.c11_tl2_leg(ctx2)
+        except Exception as e:  # noqa
+            tl2_out["err"] = f"{e!r}\n{traceback.format_exc()}"
+    tl2_thread = threading.Thread(target=tl2_leg, name="c11-tl2-leg")
+    tl2_thread.start()
+    c01.run(ctx, props="Props/C11", random_only=True, nrand=n, leg=leg)
     cov1 = copy.deepcopy(ctx.coverage)
-    c02.run(ctx, props="Props/C11", random_only=True, nrand=n)
+    c02.run(ctx, props="Props/C11", random_only=True, nrand=n, gen_cls=randschema.GenR, leg=leg)
     cov2 = ctx.coverage
     ctx.coverage = cov2
+    bins, berr = build_tools(ctx.scratch, which=("verifdump",))
+    if not berr:
+        leg.run_extra(bins["verifdump"], 150 if ctx.quick() else 1500)
+    leg.report_violations(ctx)
+    leg.report_evidence(ctx)
+    tl2_thread.join()
+    if "res" in tl2_out:
+        tl2_ops, tl2_results, tl2_viol = tl2_out["res"]
+        for v in tl2_viol:
+            ctx.violation(v["sig"], v["what"], v["data"], no_input=v["no_input"])
+        ctx.coverage["tl2_leg_ops"] = len(tl2_ops)
+        ctx.coverage["tl2_leg_violations"] = len(tl2_viol)
+    else:
+        ctx.coverage["tl2_leg_ops"] = 0
+        ctx.violation("C11:tl2:leg-crashed", "TL2 leg (tl2_lib.c11_tl2_leg) failed: " + trunc(tl2_out.get("err", "no result"), 400),
+                      {"error": tl2_out.get("err")}, no_input=True)
     ctx.coverage["evaluations"] = cov1.get("evaluations", 0) + cov2.get("evaluations", 0)
     ctx.coverage["distinct_nontrivial"] = cov1.get("distinct_nontrivial", 0) + cov2.get("distinct_nontrivial", 0)
     ctx.coverage["values_projection"] = {k: cov1.get(k) for k in ("stats", "correspondence", "correspondence_mismatches", "oracle_failures", "schemas")}
     ctx.coverage["samples"] = (cov1.get("samples") or [])[:6] + (cov2.get("samples") or [])[:6]
-    ctx.coverage["rule"] = ("random schemas only (lib/randschema.py; IR obtained from the real kernel by the verifdump translator): "
+    ctx.coverage["rule"] = ("random schemas only (lib/randschema.py GenR; IR obtained from the real kernel by the verifdump translator and compared with the "
+                            "independent derivation lib/indep_ir.py, see coverage.resolution): "
                             "(a) model-generated and FillRandom values read/re-written by generated Go and by the reference; "
                             "(b) valid, mutated and random byte strings: verdict, consumed length, re-written bytes compared")
-    ctx.assumptions = sorted(set(ctx.assumptions + ["type resolution (kernel) is shared between the reference's IR and the generator: the IR is dumped from the kernel, not re-derived independently"]))
+    ctx.coverage["trusted_base"] = list(ctx.coverage.get("trusted_base") or []) + [
+        "lib/indep_ir.py (independent IR derivation + lockstep comparison), ocaml/drv_tl1iso.ml (extracted Tl1IsoModel.ir_iso)"]
+    ctx.assumptions = sorted(set(ctx.assumptions + [
+        "the reference's IR is the kernel's dump; on every random schema it is compared with an IR derived independently from the schema text "
+        "(corr:C11:resolution, sound by C11_isomorphic_ir_same_codec); conventions of that derivation (instance = constant nat arguments + type arguments, "
+        "nat parameters in depth-first argument order, map-backed dictionary heuristic) are stated in lib/indep_ir.py"]))
